@@ -402,7 +402,7 @@ def standard_verdict(ctx, proofs_ok, mismatches, oracle_failures, search_fn=None
     oracle_failures: list of dict(name, case, what, signature?) — the property fails on the implementation.
     mismatches: list of (id, impl, model) — the model no longer predicts the implementation.
     search_fn(): called when only proofs/correspondence broke; returns more oracle_failures."""
-    for f in oracle_failures[:20]:
+    for f in oracle_failures[:5]:
         ctx.report_violation(f.get("name", case_hash(json.dumps(f.get("case"), sort_keys=True, default=str))),
                              dict(case=f.get("case"), kind="failing-input"),
                              signature=f.get("signature"), what=f.get("what", ""))
@@ -412,7 +412,7 @@ def standard_verdict(ctx, proofs_ok, mismatches, oracle_failures, search_fn=None
         return
     found = search_fn() if search_fn else []
     if found:
-        for f in found[:20]:
+        for f in found[:5]:
             ctx.report_violation(f.get("name", case_hash(json.dumps(f.get("case"), sort_keys=True, default=str))),
                                  dict(case=f.get("case"), kind="failing-input (found by search after a broken proof/correspondence)"),
                                  signature=f.get("signature"), what=f.get("what", ""))
